@@ -299,6 +299,9 @@ func (st *state) checkDec(long bool, stream []byte, src int) {
 	}
 	got, n, err, consumed := st.decodeFrom(long, stream, src)
 	pre := decPrefix[b2i(long)][src]
+	if src == srcLimited && consumed > len(stream) {
+		st.failf(pre+"read-past-the-limit-of-the-LimitedReader", "stream %x behind an io.LimitedReader with N=%d: decoding took %d bytes from the underlying reader (value %#x, n=%d, err=%v)", stream, len(stream), consumed, got, n, err)
+	}
 	if consumed > maxLen {
 		st.failf(pre+"consumed-more-than-cap", "decoding stream %x consumed %d bytes (err=%v); a %s decoder may consume at most %d", stream, consumed, err, tn, maxLen)
 	}
